@@ -17,6 +17,7 @@ RULE = ("part 'graphs': generated GFA1/GFA2 documents (isolated segments, trees,
         "'small-components': remove_small_components(minlen) with minlen on / next to the total length of a component must "
         "remove exactly the segments (with their documented dependants) of the components whose total length is "
         "below minlen - content equal to the model's edited text, topology re-checked, a second call a no-op; "
+        "part 'long-chains': unbranched chains of thousands of segments (one component, found from both ends and the middle). "
         "non-trivial there = something removed and something kept, >= 2 components; distinct by hash")
 ASSUMPTIONS = ["documents are valid (C01); history steps are legal (C02)",
                "part 'small-components': every segment has a known length (sequence, LN or slen); minlen is drawn around the component totals",
@@ -204,9 +205,55 @@ def st_hist(version):
     return s()
 
 
+def prop_long(case):
+    """A long unbranched chain (what an assembly graph mostly consists of): one component, found from either end
+    and from the middle; two dead ends."""
+    n, version, closed = case["n"], case["version"], case["closed"]
+    names = ["c%d" % i for i in range(n)]
+    lines = []
+    for i, s in enumerate(names):
+        lines.append("S\t%s\t*\tLN:i:10" % s if version == "gfa1" else "S\t%s\t10\t*" % s)
+    pairs = [(names[i], names[i + 1]) for i in range(n - 1)] + ([(names[-1], names[0])] if closed else [])
+    for a, b in pairs:
+        lines.append("L\t%s\t+\t%s\t+\t*" % (a, b) if version == "gfa1" else "E\t*\t%s+\t%s+\t8\t10$\t0\t2\t*" % (a, b))
+    lines.append("S\tlonely\t*\tLN:i:10" if version == "gfa1" else "S\tlonely\t10\t*")
+    g = gfapy.Gfa(lines, version=version, vlevel=0)
+    ctx = "chain of %d segments (%s, %s)" % (n, version, "closed" if closed else "open")
+    try:
+        cc = g.connected_components()
+    except Exception as e:
+        raise Violation("cc-raised", "%s: connected_components raised %s: %s" % (ctx, type(e).__name__, str(e)[:200]), type(e).__name__)
+    sizes = sorted(len(c) for c in cc)
+    if sizes != [1, n]:
+        raise Violation("cc", "%s: component sizes %s, expected [1, %d]" % (ctx, sizes[:5], n))
+    for start in (names[0], names[n // 2], names[-1]):
+        try:
+            c = g.segment_connected_component(start)
+        except Exception as e:
+            raise Violation("scc-raised", "%s: segment_connected_component(%s) raised %s" % (ctx, start, type(e).__name__), type(e).__name__)
+        if len(c) != n:
+            raise Violation("scc", "%s: segment_connected_component(%s) has %d segments" % (ctx, start, len(c)))
+    want_dead = 2 + (0 if closed else 2)
+    if g.n_dead_ends != want_dead or g.n_dovetails != len(pairs):
+        raise Violation("counts", "%s: n_dead_ends %d (expected %d), n_dovetails %d (expected %d)" % (ctx, g.n_dead_ends, want_dead, g.n_dovetails, len(pairs)))
+    return {"nt": True, "long_chain": n}
+
+
+def enum_long(tier):
+    def e(shard, nshards):
+        cases = [{"n": n, "version": v, "closed": c} for n in ((1500, 4000) if tier == "quick" else (1500, 4000, 12000))
+                 for v in ("gfa1", "gfa2") for c in (False, True)]
+        for i, c in enumerate(cases):
+            if i % nshards == shard:
+                yield c
+    return e
+
+
 def parts(tier):
     q = tier == "quick"
     return [Part("graphs", prop_graph, strategy=st_graph(), n=400 if q else 2000, quick_shards=2),
+            Part("long-chains", prop_long, enum=enum_long(tier), quick_shards=4,
+                 note="chains of 1500 .. 12000 segments, open and closed, both versions"),
             Part("small-components", prop_small, strategy=st_small(), n=300 if q else 1500, quick_shards=2),
             Part("hist-gfa1", prop_history, strategy=st_hist("gfa1"), n=300 if q else 800, quick_shards=2),
             Part("hist-gfa2", prop_history, strategy=st_hist("gfa2"), n=300 if q else 800, quick_shards=2)]
